@@ -317,3 +317,61 @@ theorem memRec_exact {σ : Type} (I : InputOps σ) (hraw : I.rawBytes = none) :
   rawNone := ⟨hraw, rfl⟩
 
 end Scale
+
+namespace Scale
+
+/-! ### the thresholds, for an arbitrary wrapped input -/
+
+theorem depth_generic {σ α : Type} (I : InputOps σ) (hraw : I.rawBytes = none) (L : Nat) (p : Prog α) (s : σ) :
+    (((run (depthInput L I) p (s, 0)).1 = (run I p s).1 ∧ (run (depthInput L I) p (s, 0)).2.1 = (run I p s).2) ∨
+      (run (depthInput L I) p (s, 0)).1 = .err) ∧
+    (∀ v, (run I p s).1 = .ok v →
+      (((run (depthInput L I) p (s, 0)).1 = .ok v ∧ (run (depthInput L I) p (s, 0)).2.1 = (run I p s).2) ↔
+        (run (depthRec I) p (s, 0, 0)).2.2.2 ≤ L)) := by
+  have ht := (run_lax (laxOps_of_prims (depth_trans_prims L I hraw)) p).1 s (s, 0) rfl
+  have hrec := run_exact (depthRec_exact I hraw) p s (s, 0, 0) rfl
+  have hle := (run_lax (laxOps_of_prims (depth_le_prims L I)) p).1 (s, 0, 0) (s, 0) ⟨rfl, rfl, Nat.zero_le _⟩
+  have hgt := (run_lax (laxOps_of_prims (depth_gt_prims L I)) p).1 (s, 0, 0) (s, 0) ⟨rfl, rfl⟩
+  refine ⟨?_, fun v hv => ⟨fun hl => ?_, fun hn => ?_⟩⟩
+  · rcases ht with ⟨e, r⟩ | ⟨e, _⟩ | ⟨_, e⟩
+    · exact Or.inl ⟨e.symm, r⟩
+    · exact Or.inr e
+    · exact Or.inr e
+  · rcases hle with ⟨_, _, _, hm⟩ | ⟨e, _⟩ | ⟨_, e⟩
+    · exact hm
+    · rw [hl.1] at e; cases e
+    · rw [hl.1] at e; cases e
+  · rcases hgt with ⟨e, r1, _⟩ | ⟨_, d⟩ | ⟨e, _⟩
+    · exact ⟨by rw [← e, ← hrec.1]; exact hv, by rw [← r1]; exact hrec.2⟩
+    · exfalso; simp only [depthGtRel] at d; omega
+    · rw [← hrec.1, hv] at e; cases e
+
+theorem mem_generic {σ α : Type} (I : InputOps σ) (hraw : I.rawBytes = none) (L : Nat) (hL : L ≤ usizeMax)
+    (p : Prog α) (s : σ) :
+    (((run (memInput L I) p (s, 0)).1 = (run I p s).1 ∧ (run (memInput L I) p (s, 0)).2.1 = (run I p s).2) ∨
+      (run (memInput L I) p (s, 0)).1 = .err) ∧
+    (∀ v, (run I p s).1 = .ok v →
+      (L > (run (memRec I) p (s, 0)).2.2 →
+        (run (memInput L I) p (s, 0)).1 = .ok v ∧ (run (memInput L I) p (s, 0)).2.1 = (run I p s).2 ∧
+        (run (memInput L I) p (s, 0)).2.2 = (run (memRec I) p (s, 0)).2.2) ∧
+      ((run (memRec I) p (s, 0)).2.2 > 0 → L ≤ (run (memRec I) p (s, 0)).2.2 →
+        (run (memInput L I) p (s, 0)).1 = .err)) := by
+  have ht := (run_lax (laxOps_of_prims (mem_trans_prims L I hraw)) p).1 s (s, 0) rfl
+  have hrec := run_exact (memRec_exact I hraw) p s (s, 0) rfl
+  have hlt := (run_lax (laxOps_of_prims (mem_lt_prims L I)) p).1 (s, 0) (s, 0) ⟨rfl, rfl, Or.inl rfl⟩
+  have hge := (run_lax (laxOps_of_prims (mem_ge_prims L hL I)) p).1 (s, 0) (s, 0) ⟨rfl, rfl⟩
+  refine ⟨?_, fun v hv => ⟨fun hgtU => ?_, fun hpos hle => ?_⟩⟩
+  · rcases ht with ⟨e, r⟩ | ⟨e, _⟩ | ⟨_, e⟩
+    · exact Or.inl ⟨e.symm, r⟩
+    · exact Or.inr e
+    · exact Or.inr e
+  · rcases hge with ⟨e, r1, r2⟩ | ⟨_, d⟩ | ⟨e, _⟩
+    · exact ⟨by rw [← e, ← hrec.1]; exact hv, by rw [← r1]; exact hrec.2, r2.symm⟩
+    · exfalso; simp only [memGeRel] at d; omega
+    · rw [← hrec.1, hv] at e; cases e
+  · rcases hlt with ⟨_, _, _, hm⟩ | ⟨e, _⟩ | ⟨_, e⟩
+    · exfalso; omega
+    · exact e
+    · exact e
+
+end Scale
